@@ -1,7 +1,7 @@
 SPECIFICATION Spec
 CONSTANTS
-  NGood = 5
-  NFail = 23
+  NGood = 6
+  NFail = 29
   MaxLen = 7
   MinFail = 1
 CONSTRAINT Emit
